@@ -6,6 +6,7 @@ import (
 	"bytes"
 	"crypto/cipher"
 	"fmt"
+	"runtime"
 	"sync"
 
 	"github.com/bilibili/smgo/zzverif/hk"
@@ -136,7 +137,8 @@ func lifetimeHistories(r *hk.Reporter, rng *hk.RNG, pn string, sessions int, con
 			r.Inconclusive("lifetime: finalizer barrier did not complete")
 			return
 		}
-		hist = append(hist, "GC + finalizers")
+		hist = append(hist, "GC + finalizers + allocation churn")
+		junk1 := hk.Churn()
 		close(stop)
 		wg.Wait()
 		judgeBlock("after-derived-AEAD-collected", hist)
@@ -152,10 +154,13 @@ func lifetimeHistories(r *hk.Reporter, rng *hk.RNG, pn string, sessions int, con
 				r.Inconclusive("lifetime: finalizer barrier did not complete")
 				return
 			}
-			hist = append(hist, "GC + finalizers")
+			hist = append(hist, "GC + finalizers + allocation churn")
+			junk2 := hk.Churn()
 			judgeSib(keep, "after-block-collected", hist)
 			judgeSib(late, "after-block-collected", hist)
+			runtime.KeepAlive(junk2)
 		}
+		runtime.KeepAlive(junk1)
 		r.Eval(fmt.Sprintf("lifetime:%s,dropped=%d,block-dropped=%v,concurrent=%v", pn, nDrop, sess%2 == 0, concurrent))
 	}
 }
